@@ -4,6 +4,7 @@ import (
 	"fmt"
 	"go/ast"
 	"go/constant"
+	"go/parser"
 	"go/token"
 	"go/types"
 	"math/big"
@@ -369,6 +370,32 @@ func (e *SpecEnv) call(n *ast.CallExpr) Value {
 		ne := *e
 		ne.inOld = true
 		return ne.Eval(arg(0))
+	case "val":
+		// val("<source text>"): the last value of the code expression with that source text
+		lit, ok := arg(0).(*ast.BasicLit)
+		if !ok || lit.Kind != token.STRING {
+			panic(verr("spec: val expects a string literal"))
+		}
+		txt, _ := strconv.Unquote(lit.Value)
+		pe, err := parser.ParseExpr(txt)
+		if err != nil {
+			panic(verr("spec: val(%q): %v", txt, err))
+		}
+		if v, ok := e.st.tmps[exprString(pe)]; ok {
+			return v
+		}
+		panic(verr("spec: no evaluated expression %q on this path", txt))
+	case "ver":
+		// ver(x, n): the n-th value assigned to local x on this path (1-based; declaration counts)
+		id, ok := arg(0).(*ast.Ident)
+		nv := e.Int(arg(1))
+		if !ok || !nv.IsConst() {
+			panic(verr("spec: ver(x, n) expects a local name and a constant"))
+		}
+		if v, ok := e.st.version(id.Name, int(nv.Val.Int64())); ok {
+			return v
+		}
+		panic(verr("spec: %s has no version %d on this path", id.Name, nv.Val.Int64()))
 	case "len":
 		switch v := e.Eval(arg(0)).(type) {
 		case SliceV:
